@@ -15,11 +15,16 @@
   on a tree without the dedicated mutex); UnConfirmBlocks, LastConfirm -> ChainDatabase.RW; FileQueue.Index ->
   FileQueue.IndexRW; termList -> Manager.lock; evilDeputies -> Manager.edLock; ForkManager.head -> accessed through
   sync/atomic.Value Load/Store only.  held = the access holds the nominal lock or the variable's guard.
+  Beansdb.blockRecord = the stored record of a STABLE block, read-modify-written by ChainDatabase.setConfirm
+  (getBlock4DB; append confirms; setBlock2DB): the r row is held when ChainDatabase.RW is held at the read, the w
+  row when RW is held at the write back AND it is the SAME critical section as the read (same Lock() statement, or
+  both inherited from the caller and never released in between): a release between read and write = lost update.
 -/
 namespace LemoModel.LockFacts
 
 inductive Var where
   | sigCache | lastSig | head | unConfirmBlocks | lastConfirm | offset | index | termList | evilDeputies
+  | blockRecord
   deriving DecidableEq, Repr
 
 def Var.ofString? : String → Option Var
@@ -32,6 +37,7 @@ def Var.ofString? : String → Option Var
   | "FileQueue.Index" => some .index
   | "Manager.termList" => some .termList
   | "Manager.evilDeputies" => some .evilDeputies
+  | "Beansdb.blockRecord" => some .blockRecord
   | _ => none
 
 /-- the kind of entry point a row is about (the prefix of the entry name) -/
@@ -57,6 +63,12 @@ structure Row where
   deriving DecidableEq, Repr
 
 def table : List Row := [
+  ⟨.blockRecord, "ChainDatabase.setConfirm", false, true, .engine, "DPoVP.InsertConfirms"⟩,
+  ⟨.blockRecord, "ChainDatabase.setConfirm", false, true, .go, "go:DPoVP.batchConfirmStable"⟩,
+  ⟨.blockRecord, "ChainDatabase.setConfirm", false, true, .store, "store:SetConfirms"⟩,
+  ⟨.blockRecord, "ChainDatabase.setConfirm", true, true, .engine, "DPoVP.InsertConfirms"⟩,
+  ⟨.blockRecord, "ChainDatabase.setConfirm", true, true, .go, "go:DPoVP.batchConfirmStable"⟩,
+  ⟨.blockRecord, "ChainDatabase.setConfirm", true, true, .store, "store:SetConfirms"⟩,
   ⟨.lastConfirm, "ChainDatabase.CandidatesRanking", false, true, .engine, "DPoVP.InsertBlock"⟩,
   ⟨.lastConfirm, "ChainDatabase.CandidatesRanking", false, true, .engine, "DPoVP.MineBlock"⟩,
   ⟨.lastConfirm, "ChainDatabase.CandidatesRanking", false, true, .store, "store:CandidatesRanking"⟩,
@@ -286,7 +298,8 @@ def guards : List (Var × String) := [
   (.offset, "FileQueue.putLock"),
   (.index, "FileQueue.IndexRW"),
   (.termList, "Manager.lock"),
-  (.evilDeputies, "Manager.edLock")
+  (.evilDeputies, "Manager.edLock"),
+  (.blockRecord, "ChainDatabase.RW")
 ]
 
 /-- every listed access of `v` from a real entry point holds `v`'s lock
